@@ -114,6 +114,9 @@ MUTANTS = [
     M("NaN grouped before carving", [(F_BC, "            values_orders=self.values_orders,\n            str_nan=self.str_nan,\n            dropna=False,\n        )\n\n        # computing crosstabs", "            values_orders=self.values_orders,\n            str_nan=self.str_nan,\n            dropna=True,\n        )\n\n        # computing crosstabs")], "R-dropna-stage"),
     M("stage 1 searches with the NaN row", [(F_BC, "                feature,\n                order,\n                raw_xagg,\n                combinations,\n                xagg_dev=raw_xagg_dev,", "                feature,\n                order,\n                xagg,\n                combinations,\n                xagg_dev=xagg_dev,")], "R-dropna-stage", "stage 1"),
 ]
+MUTANTS += [
+    M("frequencies rounded before the threshold test", [(F_BC, "            min_freq_train = all(train_rates[\"frequency\"] >= self.min_freq_mod)", "            min_freq_train = all(train_rates[\"frequency\"].round(2) >= self.min_freq_mod)")], "R-viability-formula"),
+]
 BENIGN = [
     B("default written as a product", [(F_BC, "            min_freq_mod = min_freq / 2", "            min_freq_mod = 0.5 * min_freq")]),
     B("binary target rate with /", [(F_BIN, "                    \"target_rate\": xtab[1].divide(xtab.sum(axis=1)),", "                    \"target_rate\": xtab[1] / xtab.sum(axis=1),")]),
